@@ -226,3 +226,47 @@ Theorem C09_resume_cumulative_allocation_partial :
     sumN (resume_scan_allocs fuel zeof base view pos) <= (blen view - pos) + max_digest_alloc.
 Proof. exact resume_scan_allocs_sum_guarded. Qed.
 Print Assumptions C09_resume_cumulative_allocation_partial.
+
+(* ---- (5) entry points modelled in theories/Transform.v -------------------------------------------------- *)
+From GoCar Require Transform.
+From GoCarProofs Require Import TotalXform.
+(* LoadIndex / GenerateIndex over an io.ReadSeeker, CARv1 or CARv2 source *)
+Theorem C09_load_index_total :
+  forall hdrdec o all, Transform.x_maxh o <= go_max_alloc ->
+    tot_loadindex hdrdec o all = TOk \/
+    exists e, tot_loadindex hdrdec o all = TErr e /\ e <> EFuel /\ e <> EPanic.
+Proof. exact tot_loadindex_total. Qed.
+Print Assumptions C09_load_index_total.
+Theorem C09_load_index_buffers_bounded :
+  forall hdrdec o all,
+    Forall (fun a => a <= Transform.x_maxh o \/ a <= max_digest_alloc) (load_index_allocs hdrdec o all).
+Proof. exact load_index_allocs_bound. Qed.
+Print Assumptions C09_load_index_buffers_bounded.
+
+(* ExtractV1File (to a new path or in place): the only input-sized buffer is the pragma/header buffer *)
+Theorem C09_extract_total :
+  forall hdrdec o in_place a, Transform.x_maxh o <= go_max_alloc ->
+    tot_extract hdrdec o in_place a = TOk \/
+    exists e, tot_extract hdrdec o in_place a = TErr e /\ e <> EFuel /\ e <> EPanic.
+Proof. exact tot_extract_total. Qed.
+Print Assumptions C09_extract_total.
+Theorem C09_extract_buffers_bounded :
+  forall o a,
+    Forall (fun n => n <= Transform.x_maxh o) (extract_allocs o a) /\
+    sumN (extract_allocs o a) <= Transform.x_maxh o.
+Proof. exact extract_allocs_bound. Qed.
+Print Assumptions C09_extract_buffers_bounded.
+
+(* ReplaceRootsInFile *)
+Theorem C09_replace_roots_total :
+  forall hdrdec o roots a, Transform.x_maxh o <= go_max_alloc ->
+    tot_replace hdrdec o roots a = TOk \/
+    exists e, tot_replace hdrdec o roots a = TErr e /\ e <> EFuel /\ e <> EPanic.
+Proof. exact tot_replace_total. Qed.
+Print Assumptions C09_replace_roots_total.
+Theorem C09_replace_roots_buffers_bounded :
+  forall hdrdec o a,
+    Forall (fun n => n <= Transform.x_maxh o) (replace_allocs hdrdec o a) /\
+    sumN (replace_allocs hdrdec o a) <= 2 * Transform.x_maxh o.
+Proof. exact replace_allocs_bound. Qed.
+Print Assumptions C09_replace_roots_buffers_bounded.
